@@ -56,6 +56,31 @@ func streamFees(sink *Sink, rng *rand.Rand, tier string, scratch string) {
 				}
 			}
 			new1 := h.activeHandle()
+			// outputs mixing keysets: the first on the active keyset, later ones on the old one - refused as a whole (C09)
+			if q := h.OpMintQuote(mode{}, 7, false, false, true); q != nil {
+				h.EnvSettle(q)
+				outs := []outSpec{{b: h.newB(h.newSecret(), 1, new1), amount: 1, ks: new1, point: true},
+					{b: h.newB(h.newSecret(), 2, 0), amount: 2, ks: 0, point: true}, {b: h.newB(h.newSecret(), 4, 0), amount: 4, ks: 0, point: true}}
+				h.OpMint(mode{}, q, outs, 0, false)
+				h.OpMint(mode{}, q, h.freshOutputs(cashu.AmountSplit(7)), 0, false)
+			}
+			if ins := pick(0, 2); len(ins) > 0 {
+				var sum uint64
+				for _, i := range ins {
+					sum += i.amount
+				}
+				if due := h.feesFor(ins); sum > due+1 {
+					var outs []outSpec
+					for k, a := range cashu.AmountSplit(sum - due) {
+						ks := int64(0)
+						if k == 0 {
+							ks = new1
+						}
+						outs = append(outs, outSpec{b: h.newB(h.newSecret(), a, ks), amount: a, ks: ks, point: true})
+					}
+					h.OpSwap(mode{}, ins, outs)
+				}
+			}
 			try(pick(new1, 1))
 			try(pick(new1, 2))
 			try(append(pick(0, 1), pick(new1, 1)...))
